@@ -110,8 +110,12 @@ def run_case(ctx, rng, focus, forced=None):
             for t in selected:
                 ms = {"deps_slower": 25 * (maxd - depth.get(t, 0)) + rng.randint(0, 15), "random": rng.randint(0, 90), "zero": 0}[timing]
                 ins = {"sleep_ms": ms}
-                if (c, t) in fail_at: ins["exit"] = rng.randint(1, 255)
-                codes[(c, t)] = ins.get("exit", 0)
+                if (c, t) in fail_at:
+                    if focus == "C06" and rng.random() < 0.3:
+                        # the executable does not exit at all: it is killed by a signal (no exit code; 256+signal in the model)
+                        ins["signal"] = rng.choice([9, 15, 6])
+                    else: ins["exit"] = rng.randint(1, 255)
+                codes[(c, t)] = 256 + ins["signal"] if "signal" in ins else ins.get("exit", 0)
                 script["%s|%s" % (c, t)] = ins
         if focus == "C06" and fail_at and sel_groups and rng.random() < 0.5:
             # a sibling of the failing task that closes its output early and succeeds later: it cannot be cancelled
@@ -131,6 +135,7 @@ def run_case(ctx, rng, focus, forced=None):
                 if k in script and "exit" not in script[k]:
                     script[k] = {"sleep_ms": rng.choice([700, 900, 1200]), "detach_output": True}
             ctx.count("detached_long_runner")
+        if any(isinstance(v, dict) and "signal" in v for v in script.values()): ctx.count("failure_by_signal")
         rr.script = script; rr.write_script()
         rc, out, err, raw = rr.run(*args)
         traces = rr.traces()
@@ -174,12 +179,12 @@ def evaluate(ctx, focus, case, cfg, rr, rc, out, err, traces, expected_cmds, sel
         for gi, g in enumerate(groups):
             exited = [(t, started[(cmd, t)][0]) for t in g if (cmd, t) in started and started[(cmd, t)][0].get("end_ns")]
             exited.sort(key=lambda x: x[1]["end_ns"])
-            with_code = [t for t, _ in exited if g[t][0] == "success" or (g[t][0] == "error" and g[t][1] is not None)]
+            with_code = [t for t, _ in exited if g[t][0] == "success" or (g[t][0] == "error" and (g[t][1] is not None or codes.get((cmd, t), 0) >= 256))]
             for t in with_code: choices.append([1, list(task_of[(cmd, t)])])
             for t in [t for t in with_code if g[t][0] == "success"]: choices.append([2, list(task_of[(cmd, t)])])
             for t in [t for t in with_code if g[t][0] == "error"]: choices.append([2, list(task_of[(cmd, t)])])
             for t in g:
-                if g[t][0] == "error" and g[t][1] is None: choices.append([3, list(task_of[(cmd, t)])])
+                if g[t][0] == "error" and g[t][1] is None and t not in with_code: choices.append([3, list(task_of[(cmd, t)])])
     code_list = [[list(task_of[k]), v] for k, v in codes.items() if k in task_of]
     v = ctx.model.call("sched", plan, fou, code_list, choices, impl_res, bool(out.get("failed")))
     agree = bool(v[2])
@@ -235,10 +240,11 @@ def evaluate(ctx, focus, case, cfg, rr, rc, out, err, traces, expected_cmds, sel
             trs = started.get((c, t), [])
             if st == "success" and not (len(trs) == 1 and trs[0].get("exit") == 0 and code == 0): problems.append({"success_untrue": [c, t, code, [x.get("exit") for x in trs]]})
             if st == "error" and code is not None and not (len(trs) == 1 and trs[0].get("exit") == code): problems.append({"error_code_untrue": [c, t, code, [x.get("exit") for x in trs]]})
+            if any(x.get("signal") for x in trs) and not (st == "error" and code is None): problems.append({"killed_by_signal_but_reported": [c, t, st, code]})
             if st in ("undefined", "not_executable", "skipped") and trs: problems.append({"no_process_status_but_started": [c, t, st]})
             if st not in STATUS: problems.append({"unexpected_status": [c, t, st]})
             if (st == "error") or st == "not_executable" or (st == "undefined" and fou): any_bad = True
-        exited_bad = any(tr.get("exit") not in (0, None) for trs in started.values() for tr in trs)
+        exited_bad = any(tr.get("exit") not in (0, None) or tr.get("signal") for trs in started.values() for tr in trs)
         if bool(out.get("failed")) != (any_bad or exited_bad): problems.append({"failed_flag": out.get("failed"), "should_be": any_bad or exited_bad})
         if rc != (1 if out.get("failed") else 0): problems.append({"exit_status": rc, "failed": out.get("failed")})
         # nothing from a later group / command starts after the first failing position; those are skipped
